@@ -403,6 +403,16 @@ Proof.
   apply (T_len _ _ _ (I_thrd _ _ (R_inv _ _ _ Hwf HR) u l Hl)).
 Qed.
 
+(* lGen is read under the mutex, at the arrival: a thread inside the wait loop has lgen = arr - 1,
+   and it is waiting for the current generation exactly when arr = generation + 1 *)
+Lemma lgen_is_arrival n progs s u l : wf_prog n progs = true -> R n progs s -> nth_error (thr s) u = Some l ->
+  waiting (at_ l) = true ->
+  lgen l = Z.of_nat (arr l) - 1 /\ Z.of_nat (arr l) <= generation (gl s) + 1 /\ (lgen l = generation (gl s) <-> Z.of_nat (arr l) = generation (gl s) + 1).
+Proof.
+  intros Hwf HR Hl Hw. pose proof (I_thrd _ _ (R_inv _ _ _ Hwf HR) u l Hl) as [Tle _ _ Tlg _ _ _ _ _ _ _].
+  specialize (Tlg Hw). repeat split; auto; lia.
+Qed.
+
 (* ---------- C09, safety ---------- *)
 (* the step that emits the return event of a wait is the unlock step *)
 Lemma ret_is_unlock t c g l g' l' es : tstep t c g l = Some (g', l', es) -> In ret_ev es -> at_ l = B_unlock.
